@@ -83,24 +83,28 @@ structure RCfg where
   `__setstate__` re-connects in stored order and `connect` prepends, so one unpickling REVERSES every
   list — the subject of C07) -/
   faithfulOrder : Bool
+  /-- a restored composite keeps its own `_cached_inputs` (fix 60dc3d1; before: `__setstate__` took the
+  children back through `add_child`, which forgets the cache, so a reloaded composite was always run again) -/
+  keepCompositeCache : Bool
   deriving Repr, DecidableEq
 
 /-- the tree as originally pinned -/
 def RCfg.original : RCfg :=
   { cache := Cache.Cfg.pinned, dropInFlight := false, resetReceived := false, silentRelink := false,
-    faithfulOrder := false }
+    faithfulOrder := false, keepCompositeCache := false }
 /-- after fix 0699958 (cache dropped on failure), before fix bc0a763 -/
 def RCfg.stale : RCfg :=
   { cache := Cache.Cfg.repaired, dropInFlight := false, resetReceived := false, silentRelink := false,
-    faithfulOrder := false }
-/-- /repo as it is now (fixes 0699958 and bc0a763 applied) -/
-def RCfg.now : RCfg :=
+    faithfulOrder := false, keepCompositeCache := false }
+/-- /repo when C08 was first built (fixes 0699958 and bc0a763 applied, nothing later) -/
+def RCfg.mid : RCfg :=
   { cache := Cache.Cfg.repaired, dropInFlight := false, resetReceived := true, silentRelink := false,
-    faithfulOrder := false }
-/-- with the proposed repairs fixes/C08-inflight-cache.patch and fixes/C08-relink-on-load.patch -/
+    faithfulOrder := false, keepCompositeCache := false }
+/-- with the repairs 3c6698c (fixes/C08-inflight-cache), 60885c9/0750ad4 (fixes/C08-relink-on-load), C07's
+5575cee (order) and 60dc3d1 (composite cache) -/
 def RCfg.repaired : RCfg :=
   { cache := Cache.Cfg.repaired, dropInFlight := true, resetReceived := true, silentRelink := true,
-    faithfulOrder := true }
+    faithfulOrder := true, keepCompositeCache := true }
 
 /-! ### the file -/
 structure Snap where
@@ -136,6 +140,9 @@ on the root, so the ROOT level is restored twice (order back to the original), e
 def reloadDag (rc : RCfg) (isRoot : Bool) (d : Dag) : Dag :=
   if rc.faithfulOrder || isRoot then d else { d with slots := fun i => (d.slots i).map List.reverse }
 
+/-- /repo as it is now -/
+def RCfg.now : RCfg := RCfg.repaired
+
 /-- the documented procedure after `load`: `failed = False` (recovery) / `running = False`
 (checkpoint: the process is gone) on every node -/
 def Snap.clearFlags (sn : Snap) : Snap :=
@@ -170,8 +177,7 @@ def resumeInit (rc : RCfg) (comp : Nat → Bool) (d : Dag) (sn : Snap) : RS :=
              out := sn.out,
              received := if rc.resetReceived then (fun _ => []) else sn.received,
              st := fun i => if sn.failed i then .failed else if sn.running i then .out else .idle },
-    -- a child that is itself a composite (macro) comes back without its own cache: `__setstate__`
-    -- re-adopts its children through `add_child`, which resets `_cached_inputs`
+    -- `comp i`: a composite child that comes back without a usable cache of its own (`rerunSet`)
     cache := fun i => if comp i then none else sn.cache i,
     fcalls := fun _ => 0 }
 
@@ -242,8 +248,14 @@ def rrunActs (fx : Fix) (cfg : Cfg) (d : Dag) (rs : RS) : List Act → Option RS
     | some rs' => rrunActs fx cfg d rs' as
     | none => none
 
+/-- the children that come back unable to answer from their cache although they had completed: the
+composites — all of them when a restored composite forgets its cache, else those with new input values
+somewhere inside (`_internal_cache_key` differs from `_cached_internals`) -/
+def rerunSet (rc : RCfg) (isComp innerChanged : Nat → Bool) (i : Nat) : Bool :=
+  isComp i && (!rc.keepCompositeCache || innerChanged i)
+
 /-- cut at `s`, file written, loaded, flags cleared: where the resumed run starts (`comp` = the
-children that are composites) -/
+children that cannot answer from their cache, see `rerunSet`) -/
 def resumeFromC (rc : RCfg) (comp : Nat → Bool) (d : Dag) (s : S) : RS :=
   resumeInit rc comp d (snapshot rc s).clearFlags
 
